@@ -94,7 +94,7 @@ package commitment
 //@ func Pool.ProcessCommitments
 //@   props C11
 //@   requires p != nil && c != nil
-//@   modifies p.Discrepancy
+//@   modifies p.Discrepancy, p.SchedulerCommitments
 //@   ensures err != ErrDiscrepancyDetected ==> p.Discrepancy == old(p.Discrepancy) && p.HighestRank == old(p.HighestRank)
 //@   ensures err == ErrDiscrepancyDetected ==> p.Discrepancy && !old(p.Discrepancy) && p.HighestRank == old(p.HighestRank)
 //@   ensures err == ErrDiscrepancyDetected ==> (forall r uint64 :: inDom(p.SchedulerCommitments, r) ==> r == p.HighestRank)
